@@ -199,21 +199,55 @@ def f5_multiclause(rnd, n):
     return scns
 
 
+def repo_file_scenarios():
+    """every .prolog file of the repository (read with the repository's own parser), each predicate
+    queried with all-variables arguments for its first answers, plus the README query"""
+    import glob
+    import os
+    from .. import fromsource
+    repo = os.environ.get("YLDPROLOG_REPO", "/repo")
+    scns = []
+    for f in sorted(glob.glob(os.path.join(repo, "compiler/test/*.prolog")) + glob.glob(os.path.join(repo, "tests/data/*.prolog"))):
+        try:
+            script = fromsource.parse(open(f, encoding="utf-8").read())
+        except Exception:
+            continue
+        if not script:
+            continue
+        steps = [[{"op": "load", "e": 1, "script": "P", "ow": True}]]
+        r = 0
+        for key in script:
+            name, ar = key.rsplit("/", 1)
+            ar = int(ar)
+            r += 1
+            g = C(name, *[V(i) for i in range(ar)]) if ar else A(name)
+            steps.append([{"op": "solve", "e": 1, "r": r, "goal": g, "qnv": ar, "k": 4}])
+        if f.endswith("monkey.prolog"):
+            r += 1
+            steps.append([{"op": "solve", "e": 1, "r": r, "goal": C("canget", C("state", A("atdoor"), A("onfloor"), A("atwindow"), A("hasnot"))), "qnv": 0, "k": 1}])
+        # one scenario per query: a query the specification cannot finish must not hide the others
+        for st in steps[1:]:
+            scns.append({"scripts": {"P": script}, "steps": [steps[0], st], "file": os.path.relpath(f, repo)})
+    return scns
+
+
 def run(tier, seed):
     chk = Check("C01", tier, seed)
     rnd = random.Random(seed)
-    chk.machine_family("corpus", [corpus(), f4_fresh()], props=("AnswersAreSLD", "CleanAfterEnd"), features=features)
+    DEC = [{"mode": "full"}, {"mode": "decorated"}]
+    chk.machine_family("corpus", [corpus(), f4_fresh()], props=("AnswersAreSLD", "CleanAfterEnd"), features=features, opts_list=DEC)
     if tier == "quick":
         chk.machine_family("F1-heads", f1_scenarios(rnd, (0, 1), 1.0) + f1_scenarios(rnd, (2,), 0.25), features=features)
         n = 1500
     else:
-        chk.machine_family("F1-heads", f1_scenarios(rnd, (0, 1, 2), 1.0), features=features)
-        n = 12000
+        chk.machine_family("F1-heads", f1_scenarios(rnd, (0, 1), 1.0) + f1_scenarios(rnd, (2,), 0.6), features=features)
+        n = 6000
+    chk.machine_family("repository-prolog-files", repo_file_scenarios(), features=features, opts_list=DEC)
     chk.machine_family("F5-multiclause-heads", f5_multiclause(rnd, 400 if tier == "quick" else 6000), features=features)
     frag = set()
     scns = [gen.random_scenario(rnd, frag, nclauses=3, depth=rnd.choice([1, 2, 3])) for _ in range(n)]
     for i in range(0, n, 4000):
-        chk.machine_family("random-C01-fragment-%d" % (i // 4000), scns[i:i + 4000], features=features)
+        chk.machine_family("random-C01-fragment-%d" % (i // 4000), scns[i:i + 4000], features=features, opts_list=DEC)
     need = ["DoCallClause", "DoCallUnknown", "DoConj", "DoEq", "DoNeq", "DoEqFail", "DoNeqFail", "DoTrue", "DoFail", "DoExhausted"]
     missing = [e for e in need if not chk.events.get(e)]
     if missing:
